@@ -107,6 +107,25 @@ def expectations(cases, infos, oracle):
     lans = iter(oracle.ask([q for rq in lreq for q in rq]))
     for c, rq in zip(ms, lreq):
         c['exp'] = G.memseq_expect(c, [next(lans) for _ in rq])
+    # address arithmetic feeding one access: the cell sits at the documented address base + index*scale + disp (linear form
+    # of the generator, solved by the harness); the access itself is the documented extending load / truncating store
+    ad = [c for c in cases if c['op'] == '@ADDR']
+    areq = []
+    for c in ad:
+        acc, ty = G.addr_parse(c)
+        cellv = c['x']['val'] & ((1 << (8 * G.TYPE_SIZE[ty])) - 1)
+        areq.append('ld %s %x' % (ty, cellv) if acc == 'L' else 'st %s %x' % (ty, c['y']['val']))
+    for c, a in zip(ad, oracle.ask(areq)):
+        acc, ty = G.addr_parse(c)
+        e = dict(ret=0, retmask=G.M64, writes={}, nan=None, dontcare=set())
+        e['init'] = {128 + i: b for i, b in enumerate(G.le_bytes(c['x']['val'], 16))}
+        if acc == 'L':
+            e['ret'] = int(a.split()[1], 16)
+        else:
+            bs = a.split()[1]
+            for i in range(len(bs) // 2):
+                e['writes'][128 + i] = int(bs[2 * i:2 * i + 2], 16)
+        c['exp'] = e
     allcases = cases
     cases = [c for c in allcases if not G.is_special(c)]
     # phase A: values of memory sources
